@@ -338,6 +338,13 @@ impl<const ASSETS: usize, const LEVELS: usize> MarketEnv<ASSETS, LEVELS> {
     pub fn get_transactions(&self) -> &Vec<Event<MarketOrderId>> {
         &self.transactions
     }
+
+    /// Verification hook (cargo feature `verif`, off by default):
+    /// read-only view of the instructions queued for the next step
+    #[cfg(feature = "verif")]
+    pub fn verif_queued(&self) -> &Vec<Event<MarketOrderId>> {
+        &self.transactions
+    }
 }
 
 #[cfg(test)]
